@@ -173,8 +173,16 @@ def run(ctx, rep) -> None:
     post = [k.methods["__post_init__"] for k in reversed(repo.mro(pc)) if "__post_init__" in k.methods]
     cfg_res = _module_const_resolver(repo, pc.module)
 
-    def built_config(ignored: list[int]):
-        ns = SimpleNamespace(ignored_dims=list(ignored), num_tolerated_failed_amortized_computations=3, amortized_computation_config="<config>")
+    # the config is an instance of one of the concrete config classes (mirrored from the source): a guard that asks
+    # `isinstance(preconditioner_config, …)` / `type(…) is …` is decided as Python decides it
+    from ..guards import shadow_hierarchy
+
+    cfg_shadow = shadow_hierarchy(repo, pc)
+    cfg_classes = [c for c in repo.concrete_subclasses(pc)]
+
+    def built_config(ignored: list[int], cls=None):
+        ns = cfg_shadow[(cls or cfg_classes[0]).qual]()
+        ns.ignored_dims, ns.num_tolerated_failed_amortized_computations, ns.amortized_computation_config = list(ignored), 3, "<config>"
         for fi in post:
             try:
                 Interp({"self": ns}, resolve_name=cfg_res, call_hook=lambda i, c: None if "super()" in ast.unparse(c.func) else MISSING).run([s for s in fi.node.body if not (isinstance(s, ast.Expr) and isinstance(s.value, ast.Constant))], exc_res)
@@ -192,6 +200,9 @@ def run(ctx, rep) -> None:
     def res_t(name: str):
         if name == "torch":
             return torch_ns
+        ci_ = repo.class_by_dotted(repo.resolve_dotted(m, name))
+        if ci_ is not None and ci_.qual in cfg_shadow:
+            return cfg_shadow[ci_.qual]
         return res(name)
 
     def tensor_hook(it_, c):
@@ -210,15 +221,21 @@ def run(ctx, rep) -> None:
     for dt in ("float16", "bfloat16", "float64"):
         for v in region_reps([0]) + [1e-12, 1e-30]:
             cases.append((f"epsilon={v},preconditioner_dtype={dt}", {"epsilon": v, "preconditioner_dtype": DTYPES[dt]}))
+    # the relative start-step rule for every concrete config class
+    for cc in cfg_classes:
+        for f_, s_ in itertools.product((1, 3, 5), (-1, 0, 1, 3, 4, 5, 7)):
+            cases.append((f"preconditioner_config={cc.name},precondition_frequency={f_},start_preconditioning_step={s_}", {"precondition_frequency": f_, "start_preconditioning_step": s_, "__cfg_class__": cc}))
     for label, delta in cases:
         env = dict(base)
-        env["preconditioner_config"] = SimpleNamespace(ignored_dims=[])
+        delta = dict(delta)
+        cfg_cls = delta.pop("__cfg_class__", None)
+        env["preconditioner_config"] = built_config([], cfg_cls)
         env.update(delta)
         env["self"] = SimpleNamespace()
         want = _oracle(env)
         if "preconditioner_config" in delta:
             try:
-                env["preconditioner_config"] = built_config(delta["preconditioner_config"].ignored_dims)
+                env["preconditioner_config"] = built_config(delta["preconditioner_config"].ignored_dims, cfg_cls)
             except Raised:
                 continue  # rejected by the config class itself: the constructor is never reached with it
         it = Interp(env, resolve_name=res_t, call_hook=tensor_hook)
